@@ -246,7 +246,29 @@ def f_group_by_constant_column(prog, idxs, ctx):
     return False
 
 
+def f_sqlite_date_to_datetime_compared(prog, idxs, ctx):
+    """A Date -> Datetime cast whose result is compared / ordered inside SQL."""
+    CMP = {"eq", "ne", "lt", "le", "gt", "ge", "hmax", "hmin", "is_in", "clip"}
+    for i in idxs:
+        for n in walk(prog["steps"][i]):
+            if n.get("k") == "fn" and n["op"] in CMP:
+                for a in n["a"]:
+                    if any(m.get("k") == "cast" and m.get("to") == "Datetime" for m in walk(a)):
+                        return True
+    return False
+
+
+def f_literal_with_pyformat_placeholder(prog, idxs, ctx):
+    for i in idxs:
+        for n in walk(prog["steps"][i]):
+            if n.get("k") == "lit" and isinstance(n.get("v"), str) and re.search(r"%\(\w*\)s", n["v"]):
+                return True
+    return False
+
+
 FEATURES = {
+    "literal_with_pyformat_placeholder": f_literal_with_pyformat_placeholder,
+    "sqlite_date_to_datetime_compared": f_sqlite_date_to_datetime_compared,
     "group_by_constant_column": f_group_by_constant_column,
     "clip_on_non_numeric": f_clip_on_non_numeric,
     "union_mixed_types": f_union_mixed_types,
